@@ -36,10 +36,12 @@ def _custom_object_builder(cls, type, properties, version, base_class):
                 if 'extensions' not in self._inner:
                     self._inner['extensions'] = {}
                 self._inner['extensions'][ext] = class_for_type(ext, version, "extensions")()
-                # Keep the usual property order (custom properties after
-                # the defined ones), as a parsed copy of this object has it.
-                for name in [k for k in self._inner if k not in self._properties]:
-                    self._inner[name] = self._inner.pop(name)
+                # Keep the usual property order (defined properties in their
+                # declared order, then the rest), as a parsed copy of this
+                # object has it.
+                order = [k for k in self._properties if k in self._inner]
+                order += [k for k in self._inner if k not in self._properties]
+                self._inner = {k: self._inner[k] for k in order}
 
     _CustomObject.__name__ = cls.__name__
 
@@ -86,10 +88,12 @@ def _custom_observable_builder(cls, type, properties, version, base_class, id_co
                 if 'extensions' not in self._inner:
                     self._inner['extensions'] = {}
                 self._inner['extensions'][ext] = class_for_type(ext, version, "extensions")()
-                # Keep the usual property order (custom properties after
-                # the defined ones), as a parsed copy of this object has it.
-                for name in [k for k in self._inner if k not in self._properties]:
-                    self._inner[name] = self._inner.pop(name)
+                # Keep the usual property order (defined properties in their
+                # declared order, then the rest), as a parsed copy of this
+                # object has it.
+                order = [k for k in self._properties if k in self._inner]
+                order += [k for k in self._inner if k not in self._properties]
+                self._inner = {k: self._inner[k] for k in order}
 
     _CustomObservable.__name__ = cls.__name__
 
